@@ -451,7 +451,7 @@ def build_and_extract(ctx):
 
 
 def _wfb(facts_f):
-    fb = FactBase([facts_f])
+    fb = FactBase([facts_f], inline=False)
     # in the witness crate the library under test is an external crate: name its items as the library does
     fb.rewrite = lambda n: n.replace("hyeong::number::", "number::")
     return fb
